@@ -228,8 +228,21 @@ impl Tr {
                     // shifts by a literal only (the result must fit the type: not checked here)
                     BinOp::Shl(_) if r.chars().all(|c| c.is_ascii_digit()) => format!("({} * 2 ^ {})", l, r),
                     BinOp::Shr(_) if r.chars().all(|c| c.is_ascii_digit()) => format!("({} / 2 ^ {})", l, r),
-                    BinOp::Eq(_) => format!("({} == {})", l, r),
-                    BinOp::Ne(_) => format!("({} != {})", l, r),
+                    BinOp::Eq(_) | BinOp::Ne(_) => {
+                        // a comparison of byte strings: both sides are lists
+                        let (tl, tr) = (self.param_type(&l), self.param_type(&r));
+                        if tl.starts_with("List") {
+                            self.hint(&r, &tl);
+                        }
+                        if tr.starts_with("List") {
+                            self.hint(&l, &tr);
+                        }
+                        if matches!(b.op, BinOp::Eq(_)) {
+                            format!("({} == {})", l, r)
+                        } else {
+                            format!("({} != {})", l, r)
+                        }
+                    }
                     BinOp::Lt(_) => format!("(decide ({} < {}))", l, r),
                     BinOp::Le(_) => format!("(decide ({} ≤ {}))", l, r),
                     BinOp::Gt(_) => format!("(decide ({} > {}))", l, r),
@@ -341,6 +354,11 @@ impl Tr {
                         Some(n) => Ok(self.param(format!("{}_len", sanitize(&n)))),
                         None => err(format!("len on {}", m.receiver.to_token_stream())),
                     },
+                    ("as_bytes", 0) => {
+                        let r = self.expr(&m.receiver)?;
+                        self.hint(&r, "List UInt8");
+                        Ok(r)
+                    }
                     ("max_capacity", 0) => match self.place_name(&m.receiver) {
                         Some(n) => Ok(self.param(format!("{}_max_capacity", sanitize(&n)))),
                         None => err(format!("max_capacity on {}", m.receiver.to_token_stream())),
